@@ -468,7 +468,8 @@ class StreamResponse(
             if keep_alive:
                 if version == HttpVersion10:
                     headers[hdrs.CONNECTION] = "keep-alive"
-            elif version == HttpVersion11:
+            elif version == HttpVersion11 or request.keep_alive:
+                # Also decline explicitly what an HTTP/1.0 client asked for.
                 headers[hdrs.CONNECTION] = "close"
 
     async def _write_headers(self) -> None:
